@@ -13,5 +13,6 @@ CONSTANTS
   Sizes = {"3", "L-1", "L", "L+1", "2L+1"}
   HistStores <- HistStoresQuick
   HistKinds = {}
+  HistFillFirst = TRUE
   MaxSteps = 40
 CHECK_DEADLOCK FALSE
